@@ -294,6 +294,14 @@ def same_arrays_twice(pystog, case):
         if (u is None) != (w is None) or (u is not None and not np.array_equal(np.asarray(u, float), np.asarray(w, float), equal_nan=True)):
             return "%s gives a different result when called again with the same arrays" % nm
 
+    from . import reuse
+    for which in (1, 0):
+        fresh_f = getattr(pystog.Converter(), nm)
+        msg = reuse.refilled_in_place(lambda a_, b_, c_: f(a_, b_, c_, **kw), lambda a_, b_, c_: fresh_f(a_, b_, c_, **kw),
+                                      [x.copy(), y.copy(), None if d is None else d.copy()], which, nm)
+        if msg:
+            return msg
+
     def same(u, w):
         return (u is None and w is None) or (u is not None and w is not None
                                              and np.array_equal(np.asarray(u, float).ravel(), np.asarray(w, float).ravel(), equal_nan=True))
